@@ -85,10 +85,8 @@ def determinism(ids: Optional[List[str]], runs: Optional[int]) -> int:
                ("16 workers, driver PYTHONHASHSEED=4242", runs, 16, "4242"),
                ("1 worker, driver PYTHONHASHSEED=77", max(6, runs // 10), 1, "77"),
                ("5 workers, driver PYTHONHASHSEED=random", max(12, runs // 4), 5, "random", {}),
-               # the sessions' cyclic garbage collector runs 14 times as often / almost never: finalisers of
-               # abandoned file objects fire at other moments
-               ("16 workers, sessions with gc threshold 50", runs, 16, "0", {"VERIF_GC_PROBE": "50"}),
-               ("16 workers, sessions with gc threshold 100000", max(12, runs // 2), 16, "0", {"VERIF_GC_PROBE": "100000"})]
+               # a second pass with the first configuration: the zygotes serve the sessions in another order
+               ("16 workers, driver PYTHONHASHSEED=0, again", runs, 16, "0", {})]
     configs = [c if len(c) == 5 else c + ({},) for c in configs]
     results = []
     for name, n, jobs, hs, extra in configs:
